@@ -1107,6 +1107,8 @@ class Interp(object):
             return BoundBuiltin(ref, attr)
         if cell.cls.startswith('<') and ('%' + attr) in cell.attrs:
             return BoundBuiltin(ref, attr)
+        if cell.cls == '<table>' and attr in ('sort',):
+            return BoundBuiltin(ref, attr)
         ci = self.repo.find_class(cell.cls)
         if ci is not None:
             for c in self.repo.mro(ci):
